@@ -56,6 +56,20 @@ fn real_table(name: &str) -> Option<[Option<u16>; 256]> {
 }
 
 // ---------------------------------------------------------------- published charts (oracle)
+/// the full published chart of a predefined encoding: generated once by tools/mkcharts.py from sources other
+/// than lopdf (python3 cp1252 / mac_roman / latin_1 + the deviations of ISO 32000-1 Annex D; Standard and MacExpert
+/// frozen at the pinned commit) and committed as `c16_charts.txt`
+fn full_chart(name: &str) -> Option<Vec<Option<u16>>> {
+    let key = match name { "StandardEncoding" => "STANDARD_ENCODING", "MacRomanEncoding" => "MAC_ROMAN_ENCODING", "MacExpertEncoding" => "MAC_EXPERT_ENCODING",
+                           "WinAnsiEncoding" => "WIN_ANSI_ENCODING", "PDFDocEncoding" => "PDF_DOC_ENCODING", _ => return None };
+    for line in include_str!("c16_charts.txt").lines() {
+        if let Some((n, cells)) = line.split_once(' ') {
+            if n == key { return Some(cells.split(',').map(|c| if c == "_" { None } else { u16::from_str_radix(c, 16).ok() }).collect()); }
+        }
+    }
+    None
+}
+
 /// Some(Some(u)) = the chart says byte b is u; Some(None) = chart says undefined; None = chart silent here
 fn chart(name: &str, b: u8) -> Option<Option<u16>> {
     const MAC_80_9F: [u16; 32] = [0xC4, 0xC5, 0xC7, 0xC9, 0xD1, 0xD6, 0xDC, 0xE1, 0xE0, 0xE2, 0xE4, 0xE3, 0xE5, 0xE7, 0xE9, 0xE8,
@@ -138,6 +152,19 @@ fn rand_scalar(r: &mut Rng) -> char {
     }
 }
 fn rand_string(r: &mut Rng, max: usize) -> String { let n = r.usize(max + 1); (0..n).map(|_| rand_scalar(r)).collect() }
+/// strings over a small alphabet of "structural" code points, length 0..12, and whole patterns (language escape
+/// sequences ESC ll ESC / ESC llCC ESC, marks inside the text, surrogate-boundary characters next to ASCII, NUL runs)
+fn structural_string(r: &mut Rng) -> String {
+    const ALPHA: [u32; 22] = [0x1B, 0xFEFF, 0xFFFE, 0x0000, 0x00FF, 0x0100, 0xD7FF, 0xE000, 0xFFFD, 0x10000, 0x10FFFF, 0x7F, 0x0A,
+                              0x61, 0x62, 0x65, 0x6E, 0x55, 0x53, 0x7A, 0x41, 0x20];
+    const PATTERNS: [&str; 14] = ["\u{1b}en\u{1b}", "\u{1b}enUS\u{1b}", "\u{1b}de\u{1b}Hallo", "a\u{1b}fr\u{1b}b\u{1b}frCA\u{1b}c", "\u{1b}\u{1b}", "\u{1b}e\u{1b}",
+                                 "\u{1b}eng\u{1b}", "\u{feff}\u{feff}", "\u{fffe}a", "\u{ef}\u{bb}\u{bf}", "\u{fe}\u{ff}", "\u{0}\u{0}\u{0}", "\u{d7ff}a\u{e000}", "\u{10000}\u{1b}xx\u{1b}\u{10ffff}"];
+    match r.below(4) {
+        0 => { let mut s = String::new(); for _ in 0..(1 + r.usize(3)) { if r.chance(1, 3) { s.push(char::from_u32(*r.pick(&ALPHA)).unwrap()); } s.push_str(*r.pick(&PATTERNS[..])); } s }
+        1 => { let n = 13 + r.usize(200); let c = char::from_u32(*r.pick(&ALPHA)).unwrap(); let mut s: String = std::iter::repeat(c).take(n).collect(); if r.chance(1, 2) { s.push_str(*r.pick(&PATTERNS[..])); } s }
+        _ => { let n = r.usize(13); (0..n).map(|_| char::from_u32(*r.pick(&ALPHA)).unwrap()).collect() }
+    }
+}
 fn printable_ascii(r: &mut Rng, max: usize) -> String { let n = r.usize(max + 1); (0..n).map(|_| (0x20 + r.below(0x5F) as u8) as char).collect() }
 /// printable ASCII only (the texts `text_string` keeps as a PDFDocEncoding literal)
 fn printable(s: &str) -> bool { s.bytes().all(|b| (0x20..0x7F).contains(&b)) }
@@ -199,6 +226,7 @@ before and after save_to + load_mem. Non-trivial = input not empty and not plain
         };
         let enc = f.get_font_encoding(&doc0).unwrap();
         let rep = repertoire(&table);
+        let fchart = full_chart(name).expect("chart file");
         // single bytes, exhaustively
         for b in 0..=255u8 {
             let Some(_r) = c.case(&format!("byte.{}", name), b as u64) else { continue };
@@ -209,7 +237,16 @@ before and after save_to + load_mem. Non-trivial = input not empty and not plain
             match &res {
                 Ok(Ok(s)) => {
                     if s.is_empty() { c.count(&format!("byte.{}.undefined", name)); } else { c.count(&format!("byte.{}.defined", name)); }
-                    // chart agreement
+                    // the published chart, all 256 codes of all five encodings
+                    {
+                        let got: Option<u16> = { let u: Vec<u16> = s.encode_utf16().collect(); if u.len() == 1 { Some(u[0]) } else if u.is_empty() { None } else { Some(0xFFFF) } };
+                        c.count("chart.full_cells_checked");
+                        if got != fchart[b as usize] {
+                            c.oracle_fail("chart:mismatch", "decoding the byte does not give the character the published chart assigns",
+                                json!({"encoding": name, "byte": b, "byte_hex": format!("{:02x}", b), "chart": format!("{:?}", fchart[b as usize].map(|u| format!("U+{:04X}", u))), "got": format!("{:?}", got.map(|u| format!("U+{:04X}", u)))}));
+                        }
+                    }
+                    // chart agreement (the ranges the property text names, written out by hand above)
                     if let Some(exp) = chart(name, b) {
                         let got: Option<u16> = { let u: Vec<u16> = s.encode_utf16().collect(); if u.len() == 1 { Some(u[0]) } else if u.is_empty() { None } else { Some(0xFFFF) } };
                         c.count("chart.cells_checked");
@@ -343,9 +380,10 @@ fn rest(c: &mut Ctx) {
     let n_ts = c.n(1500, 40000);
     for i in 0..n_ts {
         let Some(mut r) = c.case("ts", i) else { continue };
-        let s = match r.below(6) {
+        let s = match r.below(8) {
             0 => printable_ascii(&mut r, 30),
             5 => { let n = r.usize(16); (0..n).map(|_| r.below(0x80) as u8 as char).collect() }      // ASCII incl. C0 controls and DEL
+            6 | 7 => structural_string(&mut r),
             1 => { let mut s = rand_string(&mut r, 12); s.push('\u{FEFF}'); s.push_str(&rand_string(&mut r, 4)); s }
             2 => { let mut s = String::from("\u{FEFF}"); s.push_str(&rand_string(&mut r, 8)); s }
             _ => rand_string(&mut r, 24),
@@ -544,6 +582,13 @@ fn gen_doc_case(c: &mut Ctx, r: &mut Rng, tables: &[(&str, [Option<u16>; 256])])
                         let mut arr = vec![];
                         for _ in 0..(1 + r.usize(4)) {
                             if r.chance(2, 3) { let n = r.usize(6); let s: String = (0..n).map(|_| *r.pick(&rep)).collect(); arr.push(Object::String(encode_ref(&t, &s), StringFormat::Literal)); chunk.push_str(&s); }
+                            else if r.chance(1, 3) {
+                                // a real kerning number: one with a fraction stays a real after decoding and is ignored by the
+                                // loop; an integral one is written without a point and comes back as an integer (C01/C14 normal form)
+                                let v = *r.pick(&[-300.5f32, -150.0, -100.0, -100.5, -99.5, 12.25, -1000.0, 0.5, -101.0]);
+                                arr.push(Object::Real(v));
+                                if v.fract() == 0.0 && v < -100.0 { chunk.push(' '); }
+                            }
                             else { let k = if r.chance(1, 4) { *r.pick(&[-101i64, -100, -99]) } else { r.range(-300, 100) }; arr.push(Object::Integer(k)); if k < -100 { chunk.push(' '); } }
                         }
                         ops.push(Operation::new("TJ", vec![Object::Array(arr)]));
@@ -590,7 +635,8 @@ fn gen_doc_case(c: &mut Ctx, r: &mut Rng, tables: &[(&str, [Option<u16>; 256])])
     cat.set("Pages", Object::Reference(pages_id));
     let cat_id = doc.add_object(Object::Dictionary(cat));
     doc.trailer.set("Root", Object::Reference(cat_id));
-    if r.chance(1, 2) { doc.compress(); c.count("extract.compressed"); }
+    let compressed = r.chance(1, 2);
+    if compressed { doc.compress(); c.count("extract.compressed"); }
 
     // reload
     let reloaded: Option<Document> = guard(|| { let mut d2 = doc.clone(); let mut buf = vec![]; d2.save_to(&mut buf).ok().and_then(|_| Document::load_mem(&buf).ok()) }).ok().flatten();
@@ -602,11 +648,21 @@ fn gen_doc_case(c: &mut Ctx, r: &mut Rng, tables: &[(&str, [Option<u16>; 256])])
         let mut req = format!("c16.extract {}", spec.fonts.len());
         for (n, d) in &spec.fonts { req.push_str(&format!(" {} {}", hex_tok(n), show_obj(&Object::Dictionary(d.clone())))); }
         req.push_str(&format!(" {}", spec.ops.len()));
-        for op in &spec.ops { req.push_str(&format!(" {} {}", hex_tok(op.operator.as_bytes()), show_obj(&Object::Array(op.operands.clone())))); }
+        // the loop sees DECODED operations: an integral-valued real has become an integer by then (C14 normal form)
+        fn normal(o: &Object) -> Object { match o {
+            Object::Real(v) if v.fract() == 0.0 && v.abs() < 9.0e18 => Object::Integer(*v as i64),
+            Object::Array(a) => Object::Array(a.iter().map(normal).collect()),
+            x => x.clone() } }
+        for op in &spec.ops { req.push_str(&format!(" {} {}", hex_tok(op.operator.as_bytes()), show_obj(&Object::Array(op.operands.iter().map(normal).collect())))); }
         c.nontrivial(&req);
         let res = guard(|| doc.extract_text(&[pn]));
         c.corr(req.clone(), show_res(&res));
         c.count(&format!("extract.page.{}", match &res { Ok(Ok(_)) => "ok", Ok(Err(_)) => "err", Err(_) => "panic" }));
+        // the whole document through the composed model (pages C12, fonts/content C13, decode C14, loop C16)
+        if !compressed {
+            c.corr(format!("c16.xdoc {} {} {}", pn, show_obj(&Object::Dictionary(doc.trailer.clone())), show_objects(doc.objects.iter())), show_res(&res));
+            c.count("extract.whole_document_model");
+        }
         // the same page from its content BYTES: Content::decode (C14's model) + the loop
         if let Some(pid) = doc.get_pages().get(&pn) {
             if let Ok(bytes) = doc.get_page_content(*pid) {
